@@ -59,6 +59,8 @@ type aspectCallFrame struct {
 	// Placed at end on purpose. The RLP will be decoded to 0 instead of
 	// nil if there are non-empty elements after in the struct.
 	Value *big.Int `json:"value,omitempty" rlp:"optional"`
+
+	exited bool // the Aspect execution has ended (its result is recorded)
 }
 
 func (f aspectCallFrame) TypeString() string {
@@ -221,11 +223,12 @@ func (t *callTracer) CaptureAspectExit(joinpoint types.JoinPointRunType, result 
 	// reset join point if we exit
 	last := len(t.callstack) - 1
 	t.callstack[last].joinPoint = types.JoinPointRunType_Unknown
-	// the Aspect execution that exits is the most recently entered one of this join point
+	// the Aspect execution that exits is the most recently entered one of this join point that is still open
 	for i := len(t.callstack[last].JoinPoints) - 1; i >= 0; i-- {
-		if t.callstack[last].JoinPoints[i].Type == joinpoint {
+		if t.callstack[last].JoinPoints[i].Type == joinpoint && !t.callstack[last].JoinPoints[i].exited {
 			t.callstack[last].JoinPoints[i].GasUsed = t.callstack[last].JoinPoints[i].Gas - result.Gas
 			t.callstack[last].JoinPoints[i].processOutput(result.Ret, result.Err)
+			t.callstack[last].JoinPoints[i].exited = true
 			break
 		}
 	}
